@@ -11,7 +11,7 @@
 From Coq Require Import String Ascii List Bool Arith ZArith.
 From LC Require Import MathDefs ValidDefs ValidSpec ValidLeaf ValidMathProofs ValidCompProofs ValidUnitsProofs ValidProofs
   ValidCitedProofs ValidCited2Proofs ValidCycleProofs ValidIdsProofs ValidWitness ValidXmlName ValidImportProofs
-  ValidNamesProofs ValidIdsEnumProofs.
+  ValidNamesProofs ValidIdsEnumProofs ValidSoundProofs.
 Import ListNotations.
 Local Open Scope string_scope.
 Local Open Scope list_scope.
@@ -252,6 +252,24 @@ Theorem C04_xml_name_table_bmp : forall cp, (cp < 0x10000)%N ->
   is_name_start_char (utf8_pack cp) = name_start_cp cp /\ is_name_char (utf8_pack cp) = name_char_cp cp.
 Proof. exact ValidXmlName.xml_name_table_bmp. Qed.
 Print Assumptions C04_xml_name_table_bmp.
+
+(** SOUNDNESS FOR ALL WORLDS.  No hypothesis on the world (import sources of components and of units with or without models, any
+    import graph, cyclic or not): whenever validateModel is silent, every rule of the specification holds — model name and id,
+    every component (declarative CompOK, with the reset variables owned by THE component), the targets of resolved component
+    imports (ImportTargetOK / Checked), unique component names, every units (UnitsOK), unique units names, distinct imports,
+    connections (MapOK, InterfaceOK), identifiers, reset orders — all of WFr except the acyclicity of the units reference graph
+    (whose proof needs the units imports of model 0 unresolved: C04_units_pass).  [Repr] is the encoding of object identity.
+    Contrapositive: a model breaking any of these rules anywhere is reported. *)
+Theorem C04_validate_sound_all_worlds : forall fx ueq W, Repr (model_at W 0) -> validate fx ueq false W = [] -> Rules fx ueq W.
+Proof. exact ValidSoundProofs.validate_sound_general. Qed.
+Print Assumptions C04_validate_sound_all_worlds.
+
+(** non-vacuity: a world in which BOTH a units import and a component import of model 0 are resolved (outside the hypotheses of
+    every other equivalence theorem here) is accepted and hence satisfies the rules *)
+Example C04_sound_all_worlds_nonvacuous :
+  validate current_fixes ueq_c08 false w_resolved_both = [] /\ Rules current_fixes ueq_c08 w_resolved_both.
+Proof. exact (conj ValidWitness.w_resolved_both_accepted ValidWitness.w_resolved_both_rules). Qed.
+Print Assumptions C04_sound_all_worlds_nonvacuous.
 
 (** THE MAIN EQUIVALENCE WITH RESOLVED COMPONENT IMPORTS.  Well-foundedness: imports point forward in the world
     ([imports_forward]: a component of model i whose import source has model j satisfies i < j < length W).  WFr = WF plus,
